@@ -7,6 +7,7 @@ import HpxVerif.Model.Bmoc
 import HpxVerif.Model.Layer
 import HpxVerif.Model.Topo
 import HpxVerif.Gen.Consts
+import HpxVerif.Model.Hash
 
 namespace Hpx.Driver
 
@@ -144,8 +145,35 @@ def topoOp (st : St) (op : String) (a : List Nat) : String :=
       " ".intercalate (sorted.map fun p => s!"{p.1.index}:[{listLine p.2}]")
   | _, _ => "bad-op"
 
+def fl (s : String) : Float := F.ofBitsNat (nat! s)
+def fb (x : Float) : String := toString (F.bits x)
+def optPairF : Option (Float × Float) → String
+  | some (a, b) => s!"{fb a} {fb b}"
+  | none => "panic"
+def optListF : Option (List (Float × Float)) → String
+  | some l => if l.isEmpty then "-" else " ".intercalate (l.map fun p => s!"{fb p.1} {fb p.2}")
+  | none => "panic"
+
 def stepRest (st : St) (toks : List String) : St × String :=
   match toks with
+  | ["hash", d, lon, lat] => (st, optNat (Hash.hashV2 st.cfg (nat! d) (fl lon) (fl lat)))
+  | ["hashhyp", lon, lat] =>
+    -- the hypotheses of `C02.hash_prefix` evaluated on this position (the front end is private in the crate; the
+    -- model reproduces it bit for bit)
+    let lo := fl lon; let la := fl lat
+    if !Proj.checkLat la then (st, "ok") else
+    let f := Hash.d0hLhInD0c lo la
+    let u := F.bits (f.2.2 + f.2.1); let v := F.bits (f.2.2 - f.2.1)
+    let small (b : Nat) : Bool := F64.sgnF b == 1 || (F64.expF b == 2047 && F64.manF b != 0) || (F64.sgnF b == 0 && F64.expF b ≤ 1025)
+    let okI := F64.truncU 32 (F64.expAdd u 28) ≤ 2 ^ 29
+    let okJ := F64.truncU 32 (F64.expAdd v 28) ≤ 2 ^ 29
+    -- `-0.0` at depth 0 would saturate the cast (see DESIGN C01)
+    let negZero := u == 2 ^ 63 || v == 2 ^ 63
+    (st, if small u && small v && okI && okJ && !negZero then "ok" else s!"hypothesis-fails u={u} v={v}")
+  | ["nhash", d] => (st, toString (Layer.nHash (nat! d)))
+  | ["proj", lon, lat] => (st, optPairF (Proj.proj (fl lon) (fl lat)))
+  | ["unproj", x, y] => (st, optPairF (Proj.unproj (fl x) (fl y)))
+  | ["basecell", x, y] => (st, optNat (Proj.baseCellFromProjCoo st.debug (fl x) (fl y)))
   | ["toring", d, h] => (st, optNat (Layer.toRing st.cfg (nat! d) (nat! h)))
   | ["fromring", d, r] => (st, optNat (Layer.fromRing st.cfg (nat! d) (nat! r)))
   | ["touniq", d, h] => (st, optNat (toUniq (nat! d) (nat! h)))
